@@ -240,14 +240,7 @@ type entry struct {
 	nolen int // occurrences (branches in series counted once) lacking a length
 }
 
-func dyadicAll(ms []*ref.Node) bool {
-	for _, m := range ms {
-		if !gen.IsDyadicExact(m) {
-			return false
-		}
-	}
-	return true
-}
+func dyadicAll(ms []*ref.Node) bool { return gen.AllDyadicExact(ms) }
 
 func expectedTable(trees []*ref.Node) (*ref.Taxa, map[string]*entry, map[string]bool, error) {
 	tx, err := ref.NewTaxa(trees[0].Tips())
@@ -566,8 +559,10 @@ func TestC09Reject(t *testing.T) {
 			}
 			return c
 		},
-		Check:    checkRej,
-		Classify: func(c RejCase) (bool, []string) { return true, []string{"kind:" + c.Kind, fmt.Sprintf("pos-first=%v", c.Pos%len(c.Trees) == 0)} },
+		Check: checkRej,
+		Classify: func(c RejCase) (bool, []string) {
+			return true, []string{"kind:" + c.Kind, fmt.Sprintf("pos-first=%v", c.Pos%len(c.Trees) == 0)}
+		},
 	})
 }
 
